@@ -32,8 +32,10 @@ namespace occa {
       typelessArray(),
       memory_(mem) {
 
-      memory_.setDtype(dtype::get<T>());
-      setupTypelessArray(memory_);
+      if (memory_.isInitialized()) {
+        memory_.setDtype(dtype::get<T>());
+        setupTypelessArray(memory_);
+      }
     }
     array(const array<T> &other) :
       typelessArray(other),
@@ -68,6 +70,15 @@ namespace occa {
       return "occa_array_ptr[0]";
     }
 
+    // Wrap [mem], or an empty array on the same device if [mem] is a zero-length allocation
+    array emptyOr(occa::memory mem) const {
+      array ret(mem);
+      if (!mem.isInitialized()) {
+        ret.setupTypelessArray(device_, dtype_);
+      }
+      return ret;
+    }
+
   public:
     //---[ Memory methods ]-------------
     bool isInitialized() const {
@@ -96,13 +107,17 @@ namespace occa {
 
     void resize(occa::device device, const dim_t size) {
       if (size == (dim_t) length()) {
+        if (!device_.isInitialized()) {
+          // An empty array still belongs to a device
+          setupTypelessArray(device, dtype::get<T>());
+        }
         return;
       }
 
       occa::memory prevMemory = memory_;
       memory_ = device.malloc<T>(size);
 
-      if (prevMemory.isInitialized()) {
+      if (prevMemory.isInitialized() && memory_.isInitialized()) {
         if (prevMemory.length() < memory_.length()) {
           prevMemory.copyTo(memory_);
         } else {
@@ -110,7 +125,8 @@ namespace occa {
         }
       }
 
-      setupTypelessArray(memory_);
+      // Zero-length allocations are uninitialized handles which don't know their device
+      setupTypelessArray(device, dtype::get<T>());
     }
 
     udim_t length() const {
@@ -118,7 +134,7 @@ namespace occa {
     }
 
     array clone() const {
-      return array(memory_.clone());
+      return emptyOr(memory_.clone());
     }
 
     void copyFrom(const T *src,
@@ -218,17 +234,23 @@ namespace occa {
 
     template <class T2>
     array<T2> map(const occa::function<T2(const T&)> &fn) const {
-      return typelessMap<T2>(fn);
+      array<T2> output(device_, length());
+      typelessMapTo(output.memory_, fn);
+      return output;
     }
 
     template <class T2>
     array<T2> map(const occa::function<T2(const T&, const int)> &fn) const {
-      return typelessMap<T2>(fn);
+      array<T2> output(device_, length());
+      typelessMapTo(output.memory_, fn);
+      return output;
     }
 
     template <class T2>
     array<T2> map(const occa::function<T2(const T&, const int, const T*)> &fn) const {
-      return typelessMap<T2>(fn);
+      array<T2> output(device_, length());
+      typelessMapTo(output.memory_, fn);
+      return output;
     }
 
     template <class T2>
@@ -309,7 +331,7 @@ namespace occa {
 
     array slice(const dim_t offset,
                 const dim_t count = -1) const {
-      return array(
+      return emptyOr(
         memory_.slice(offset, count)
       );
     }
@@ -318,11 +340,15 @@ namespace occa {
       const udim_t entries = memory_.length();
       const udim_t other_entries = other.memory_.length();
 
-      occa::memory ret = getDevice().template malloc<T>(entries + other_entries);
-      ret.copyFrom(memory_, entries, 0);
-      ret.copyFrom(other.memory_, other_entries, entries);
+      array ret(getDevice(), entries + other_entries);
+      if (entries) {
+        ret.memory_.copyFrom(memory_, entries, 0);
+      }
+      if (other_entries) {
+        ret.memory_.copyFrom(other.memory_, other_entries, entries);
+      }
 
-      return array(ret);
+      return ret;
     }
 
     array fill(const T &fillValue) {
